@@ -47,9 +47,10 @@ TChown   == Ev.a = "Chown"   /\ ((Accept(CanAttr(Ev.p), tree, {Ev.p}, {"uid", "g
 TChtimes == Ev.a = "Chtimes" /\ ((Accept(CanAttr(Ev.p), tree, {Ev.p}, {"mt", "at"}) /\ At[Ev.p].mt = Ev.v /\ At[Ev.p].at = Ev.w) \/ Refuse({Ev.p}))
 \* macro calls whose net effect on the universe is nil: Churn creates k temporary entries in a
 \* directory (growing it past one block) and removes them again; Straddle does so in a fresh directory
-\* after using up the free blocks below a block-group boundary (the directory grows across it); BigFile writes a multi-block
+\* after using up the free blocks below a block-group boundary (the directory grows across it); GroupEdge
+\* places files at the first blocks of two neighbouring groups, removes one and checks the other; BigFile writes a multi-block
 \* file outside the universe in pieces, reads it back live and after re-opening (bigok), removes it
-TChurn   == Ev.a \in {"Churn", "Churn2", "Straddle"} /\ Ev.res = "ok" /\ Clean /\ Api = tree /\ Api2 = tree /\ AttrFrame({Ev.p}, Times) /\ attr' = At /\ UNCHANGED <<tree, out>>
+TChurn   == Ev.a \in {"Churn", "Churn2", "Straddle", "GroupEdge"} /\ Ev.res = "ok" /\ Clean /\ Api = tree /\ Api2 = tree /\ AttrFrame({Ev.p}, Times) /\ attr' = At /\ UNCHANGED <<tree, out>>
 TBigFile == Ev.a = "BigFile" /\ Ev.res = "ok" /\ Clean /\ Ev.bigok /\ Api = tree /\ Api2 = tree /\ AttrFrame({}, {}) /\ UNCHANGED vars
 Match == Ev.panic = "" /\ (TChurn \/ TBigFile \/ TMkdir \/ TCreate \/ TWrite \/ TAppend \/ TSymlink \/ TRemove \/ TChmod \/ TChown \/ TChtimes)
 InRange  == l <= Len(Trace)
